@@ -337,6 +337,8 @@ func exec(kind string, in []string) []string {
 		}
 		return []string{"res=" + jn(h.res, ","), "cks=" + jn(h.cks, "^"), "same=" + jn(h.same, ","), "fin=" + h.fin,
 			"live=" + h.live, fmt.Sprintf("retries=%d", h.retries), "reissued=" + jn(h.reissued, ",")}
+	case "srv":
+		return srvCase(cap, in[2], in[3])
 	case "conc":
 		return concCase(cap, vh.AtoI(in[2]), vh.AtoI(in[3]), vh.AtoI(in[4]))
 	case "reissue":
@@ -366,6 +368,10 @@ func exec(kind string, in []string) []string {
 func main() {
 	if len(os.Args) > 1 && os.Args[1] == "segment" {
 		segmentMain()
+		return
+	}
+	if len(os.Args) > 1 && os.Args[1] == "srvchild" {
+		srvChildMain()
 		return
 	}
 	if len(os.Args) > 1 && os.Args[1] == "concseg" {
